@@ -29,8 +29,8 @@ theorem eq_of_id_eq (l : List KOut) (hn : (l.map (·.id)).Nodup) (a b : KOut) (h
     simp only [List.map, List.nodup_cons, List.mem_map, not_exists, not_and] at hn
     rcases List.mem_cons.mp ha with ha | ha <;> rcases List.mem_cons.mp hb with hb | hb
     · rw [ha, hb]
-    · subst ha; exact absurd h.symm (hn.1 b hb)
-    · subst hb; exact absurd h (hn.1 a ha)
+    · rw [ha] at h; exact absurd h.symm (hn.1 b hb)
+    · rw [hb] at h; exact absurd h (hn.1 a ha)
     · exact ih hn.2 ha hb
 
 theorem find?_id_of_nodup (l : List KOut) (hn : (l.map (·.id)).Nodup) (o : KOut) (ho : o ∈ l) :
@@ -41,7 +41,9 @@ theorem find?_id_of_nodup (l : List KOut) (hn : (l.map (·.id)).Nodup) (o : KOut
     simp only [List.map, List.nodup_cons, List.mem_map, not_exists, not_and] at hn
     rcases List.mem_cons.mp ho with ho | ho
     · subst ho; simp [List.find?]
-    · have : x.id ≠ o.id := fun e => hn.1 o ho e.symm
+    · have : (x.id == o.id) = false := by
+        have : x.id ≠ o.id := fun e => hn.1 o ho e.symm
+        simp [this]
       simp [List.find?, this, ih hn.2 ho]
 
 theorem not_holds_ne (imm : List Nat) (fpc fsst id : Nat)
@@ -164,7 +166,8 @@ theorem Inv_kwrite (R : ViewRel) (s : PState) (F : KFs) (h : Inv R s F) (id : Na
         obtain ⟨f, hf, hc⟩ := (h.sst.koutFiles o2 ho2).1 host
         simp only [setStage_id, setStage_ents, hid, if_true]
         rw [hid] at hf
-        exact ⟨appendChunk (.table o2.ents) f, by simp [sstView, hf] at *; simp [sstView] at hf; simp [hf], by simp [appendChunk, hc]⟩
+        have hf' : F (.sst id) = some f := hf
+        exact ⟨appendChunk (.table o2.ents) f, by simp [hf'], by simp [appendChunk, hc]⟩
     · constructor
       · intro hs
         rw [setStage_stage] at hs; simp only [hid, if_false] at hs
@@ -201,6 +204,227 @@ theorem Inv_kdel (R : ViewRel) (s : PState) (F : KFs) (h : Inv R s F) (id : Nat)
     · intro hs; simp only [hne, if_false]; exact (h.sst.koutFiles o ho).2 hs
   vlogNZ := by
     intro n f hf
+    rw [upd_ne _ _ _ _ (by simp)] at hf
+    exact h.vlogNZ n f hf
+
+/-! ### `kmset`: the MANIFEST change set of a compaction -/
+
+theorem mem_flatten_map {α β : Type} (f : α → List β) (l : List α) (e : β) :
+    e ∈ (l.map f).flatten ↔ ∃ x ∈ l, e ∈ f x := by
+  simp only [List.mem_flatten, List.mem_map]
+  constructor
+  · rintro ⟨l', ⟨x, hx, rfl⟩, he⟩; exact ⟨x, hx, he⟩
+  · rintro ⟨x, hx, he⟩; exact ⟨f x, ⟨x, hx, rfl⟩, he⟩
+
+theorem applyMSet_creates (os : List KOut) (rest : List MChange) (t t' : List (Nat × Nat))
+    (h : applyMSet t (os.map (fun o => MChange.create o.id o.level) ++ rest) = some t') :
+    ∃ t1, applyMSet t1 rest = some t' ∧
+      ∀ x, x ∈ t1 ↔ (∃ o ∈ os, x = (o.id, o.level)) ∨ x ∈ t := by
+  induction os generalizing t with
+  | nil => exact ⟨t, h, by simp⟩
+  | cons o os ih =>
+    simp only [List.map, List.cons_append, applyMSet, applyMChange] at h
+    by_cases hs : (aget o.id t).isSome
+    · simp [hs] at h
+    · simp only [hs, if_false] at h
+      obtain ⟨t1, h1, hm⟩ := ih _ h
+      refine ⟨t1, h1, ?_⟩
+      intro x
+      have hnone : aget o.id t = none := by simpa using hs
+      rw [hm, mem_aset_of_none _ _ _ _ hnone]
+      simp only [List.mem_cons, exists_eq_or_imp]
+      constructor
+      · rintro (h2 | h2 | h2)
+        · exact Or.inl (Or.inr h2)
+        · exact Or.inl (Or.inl h2)
+        · exact Or.inr h2
+      · rintro ((h2 | h2) | h2)
+        · exact Or.inr (Or.inl h2)
+        · exact Or.inl h2
+        · exact Or.inr (Or.inr h2)
+
+theorem applyMSet_deletes (ids : List Nat) (t t' : List (Nat × Nat))
+    (h : applyMSet t (ids.map MChange.delete) = some t') :
+    ∀ x, x ∈ t' ↔ x ∈ t ∧ x.1 ∉ ids := by
+  induction ids generalizing t with
+  | nil =>
+    simp only [List.map, applyMSet] at h
+    injection h with h; subst h; simp
+  | cons id ids ih =>
+    simp only [List.map, applyMSet, applyMChange] at h
+    by_cases hs : (aget id t).isSome
+    · simp only [hs, if_true] at h
+      intro x
+      rw [ih _ h, mem_aerase]
+      simp only [List.mem_cons, not_or]
+      constructor
+      · rintro ⟨⟨h1, h2⟩, h3⟩; exact ⟨h1, h2, h3⟩
+      · rintro ⟨h1, h2, h3⟩; exact ⟨⟨h1, h2⟩, h3⟩
+    · simp [hs] at h
+
+theorem aget_append_left_some {α β : Type} [DecidableEq α] (k : α) (v : β) (a b : List (α × β))
+    (h : aget k a = some v) : aget k (a ++ b) = some v := by
+  induction a with
+  | nil => simp [aget] at h
+  | cons x xs ih =>
+    obtain ⟨a', b'⟩ := x
+    simp only [aget] at h
+    by_cases h2 : a' = k
+    · simp [h2] at h; simp [aget, h2, h]
+    · simp only [h2, if_false] at h
+      simp [aget, h2, ih h]
+
+theorem aget_conts_of_nodup (l : List KOut) (hn : (l.map (·.id)).Nodup) (o : KOut) (ho : o ∈ l) :
+    aget o.id (l.map (fun o => (o.id, o.ents))) = some o.ents := by
+  induction l with
+  | nil => simp at ho
+  | cons x xs ih =>
+    simp only [List.map, List.nodup_cons, List.mem_map, not_exists, not_and] at hn
+    rcases List.mem_cons.mp ho with ho | ho
+    · subst ho; simp [aget]
+    · have : x.id ≠ o.id := fun e => hn.1 o ho e.symm
+      simp [aget, this, ih hn.2 ho]
+
+theorem aget_conts_none (l : List KOut) (id : Nat) (h : ∀ o ∈ l, o.id ≠ id) :
+    aget id (l.map (fun o => (o.id, o.ents))) = none := by
+  rw [aget_none_iff]
+  intro x hx
+  obtain ⟨o, ho, he⟩ := List.mem_map.mp hx
+  subst he; exact h o ho
+
+theorem Inv_kmset (R : ViewRel) (s : PState) (F : KFs) (h : Inv R s F) (t' : List (Nat × Nat))
+    (hk : s.kins ≠ [])
+    (hstage : ∀ o ∈ s.kout, o.stage = 2 ∧ aget o.id s.tset = none)
+    (happ : applyMSet s.tset (kmsetChanges s) = some t')
+    (hf5 : s.imm ≠ [] → 5 ≤ s.fpc → s.fsst ∉ s.kins) :
+    Inv R { s with tset := t', tcont := s.kout.map (fun o => (o.id, o.ents)) ++ s.tcont,
+                   kdelq := s.kins, kins := [], kout := [] }
+      (upd F .manifest ((F .manifest).map (appendChunk (.mset (kmsetChanges s))))) := by
+  -- membership in the new table set
+  have hmem : ∀ x, x ∈ t' ↔ ((∃ o ∈ s.kout, x = (o.id, o.level)) ∨ x ∈ s.tset) ∧ x.1 ∉ s.kins := by
+    unfold kmsetChanges at happ
+    obtain ⟨t1, h1, hm1⟩ := applyMSet_creates _ _ _ _ happ
+    intro x
+    rw [applyMSet_deletes _ _ _ h1 x, hm1]
+  have hkoutNotIns : ∀ o ∈ s.kout, o.id ∉ s.kins := by
+    intro o ho hin
+    have := h.sst.kinsIn o.id hin
+    rw [(hstage o ho).2] at this; cases this
+  have hmem' : ∀ x, x ∈ t' ↔ (∃ o ∈ s.kout, x = (o.id, o.level)) ∨ (x ∈ s.tset ∧ x.1 ∉ s.kins) := by
+    intro x
+    rw [hmem]
+    constructor
+    · rintro ⟨h1 | h1, h2⟩
+      · exact Or.inl h1
+      · exact Or.inr ⟨h1, h2⟩
+    · rintro (⟨o, ho, he⟩ | ⟨h1, h2⟩)
+      · exact ⟨Or.inl ⟨o, ho, he⟩, by rw [he]; exact hkoutNotIns o ho⟩
+      · exact ⟨Or.inr h1, h2⟩
+  let tcont' := s.kout.map (fun o => (o.id, o.ents)) ++ s.tcont
+  have hcontOut : ∀ o ∈ s.kout, entsOfTable tcont' o.id = o.ents := by
+    intro o ho
+    simp only [entsOfTable, tcont']
+    rw [aget_append_left_some _ _ _ _ (aget_conts_of_nodup _ h.sst.koutNodup o ho)]
+    rfl
+  have hcontOld : ∀ x ∈ s.tset, entsOfTable tcont' x.1 = entsOfTable s.tcont x.1 := by
+    intro x hx
+    simp only [entsOfTable, tcont']
+    rw [aget_append_left_none]
+    apply aget_conts_none
+    intro o ho e
+    have := (aget_none_iff o.id s.tset).mp (hstage o ho).2 x hx
+    exact this e.symm
+  refine ⟨?_, ?_, ?_, ?_, ?_⟩
+  · -- logic
+    have hT : R.r ((t'.map (fun x => entsOfTable tcont' x.1)).flatten)
+        ((s.tset.map (fun x => entsOfTable s.tcont x.1)).flatten) := by
+      let keep := ((s.tset.filter (fun x => !s.kins.contains x.1)).map (fun x => entsOfTable s.tcont x.1)).flatten
+      have e1 : R.r ((t'.map (fun x => entsOfTable tcont' x.1)).flatten) ((s.kout.map (·.ents)).flatten ++ keep) := by
+        apply R.of_mem_iff
+        intro e
+        simp only [List.mem_append, mem_flatten_map, keep, List.mem_filter]
+        constructor
+        · rintro ⟨x, hx, he⟩
+          rcases (hmem' x).mp hx with ⟨o, ho, hxe⟩ | ⟨h1, h2⟩
+          · subst hxe; rw [hcontOut o ho] at he; exact Or.inl ⟨o, ho, he⟩
+          · rw [hcontOld x h1] at he
+            exact Or.inr ⟨x, ⟨h1, by simpa using h2⟩, he⟩
+        · rintro (⟨o, ho, he⟩ | ⟨x, ⟨h1, h2⟩, he⟩)
+          · exact ⟨(o.id, o.level), (hmem' _).mpr (Or.inl ⟨o, ho, rfl⟩), by rw [hcontOut o ho]; exact he⟩
+          · exact ⟨x, (hmem' _).mpr (Or.inr ⟨h1, by simpa using h2⟩), by rw [hcontOld x h1]; exact he⟩
+      have e2 : R.r ((s.kins.map (entsOfTable s.tcont)).flatten ++ keep)
+          ((s.tset.map (fun x => entsOfTable s.tcont x.1)).flatten) := by
+        apply R.of_mem_iff
+        intro e
+        simp only [List.mem_append, mem_flatten_map, keep, List.mem_filter]
+        constructor
+        · rintro (⟨id, hid, he⟩ | ⟨x, ⟨h1, _⟩, he⟩)
+          · have := h.sst.kinsIn id hid
+            cases hg : aget id s.tset with
+            | none => rw [hg] at this; cases this
+            | some lvl => exact ⟨(id, lvl), aget_mem _ _ _ hg, he⟩
+          · exact ⟨x, h1, he⟩
+        · rintro ⟨x, hx, he⟩
+          by_cases hin : x.1 ∈ s.kins
+          · exact Or.inl ⟨x.1, hin, he⟩
+          · exact Or.inr ⟨x, ⟨hx, by simpa using hin⟩, he⟩
+      exact R.trans _ _ _ e1 (R.trans _ _ _ (R.app_congr _ _ _ _ (h.sst.kview hk) (R.refl _)) e2)
+    have hl := h.logic
+    refine ⟨?_, hl.acked_le, hl.done_le, hl.infl⟩
+    show R.r ((t'.map (fun x => entsOfTable tcont' x.1)).flatten ++ (s.imm.map s.memEnts).flatten ++
+      (if s.curOpen then s.memEnts s.cur else [])) _
+    have : R.r ((t'.map (fun x => entsOfTable tcont' x.1)).flatten ++ ((s.imm.map s.memEnts).flatten ++
+        (if s.curOpen then s.memEnts s.cur else []))) s.lsmEnts := by
+      unfold PState.lsmEnts
+      rw [List.append_assoc]
+      exact R.app_congr _ _ _ _ hT (R.refl _)
+    rw [List.append_assoc]
+    exact R.trans _ _ _ this hl.view
+  · -- manifest
+    have := ManifestOk_append F s.tset t' (kmsetChanges s) h.manifest happ
+    rw [← krun_append1]
+    exact this
+  · rw [memView_upd_manifest]; exact h.mem
+  · rw [sstView_upd_manifest]
+    exact {
+      tables := by
+        intro x hx
+        rcases (hmem' x).mp hx with ⟨o, ho, hxe⟩ | ⟨h1, h2⟩
+        · subst hxe
+          obtain ⟨f, hf, hc⟩ := (h.sst.koutFiles o ho).2 (hstage o ho).1
+          exact ⟨f, hf, by rw [hc]; show _ = [Chunk.table (entsOfTable tcont' o.id)]; rw [hcontOut o ho]⟩
+        · obtain ⟨f, hf, hc⟩ := h.sst.tables x h1
+          exact ⟨f, hf, by rw [hc]; show _ = [Chunk.table (entsOfTable tcont' x.1)]; rw [hcontOld x h1]⟩
+      sstFresh := by
+        intro n hn
+        refine ⟨(h.sst.sstFresh n hn).1, ?_⟩
+        rw [aget_none_iff]
+        intro x hx
+        rcases (hmem' x).mp hx with ⟨o, ho, hxe⟩ | ⟨h1, _⟩
+        · subst hxe; have := h.sst.koutLt o ho; have hn' : s.nextSst ≤ n := hn; show o.id ≠ n; omega
+        · exact (aget_none_iff n s.tset).mp (h.sst.sstFresh n hn).2 x h1
+      idle := h.sst.idle
+      fsstLt := h.sst.fsstLt
+      flush1 := h.sst.flush1
+      flush2 := h.sst.flush2
+      flush5 := by
+        intro k hk5 h5
+        obtain ⟨h1, h2⟩ := h.sst.flush5 k hk5 h5
+        have hi : s.imm ≠ [] := by intro e; simp [e] at hk5
+        cases hg : aget s.fsst s.tset with
+        | none => rw [hg] at h1; cases h1
+        | some lvl =>
+          have hm := aget_mem _ _ _ hg
+          have hin : (s.fsst, lvl) ∈ t' := (hmem' _).mpr (Or.inr ⟨hm, hf5 hi h5⟩)
+          refine ⟨aget_isSome_of_mem _ _ hin, ?_⟩
+          show entsOfTable tcont' s.fsst = _
+          rw [hcontOld (s.fsst, lvl) hm]; exact h2
+      koutLt := by intro o ho; simp at ho
+      koutNodup := by simp
+      koutFiles := by intro o ho; simp at ho
+      kview := by intro e; exact absurd rfl e
+      kinsIn := by intro id hid; simp at hid }
+  · intro n f hf
     rw [upd_ne _ _ _ _ (by simp)] at hf
     exact h.vlogNZ n f hf
 
